@@ -2168,6 +2168,12 @@ out:
 		case *kmsg.MessageV1:
 			innerMessage.Offset += base
 			innerMessage.Attributes |= int8(compression)
+			if message.Attributes&0b1000 != 0 {
+				// KIP-32: with LogAppendTime the broker stamps only the
+				// wrapper; its timestamp and type apply to every inner message.
+				innerMessage.Timestamp = message.Timestamp
+				innerMessage.Attributes |= 0b1000
+			}
 			if !o.processV1Message(fp, innerMessage) {
 				return i, uncompressedBytes
 			}
